@@ -240,3 +240,12 @@ def implied_atoms(conds) -> t.List[t.Tuple[tuple, bool]]:
     for item in conds:
         walk(item[0], item[1])
     return out
+
+
+def unwrap_iter(tm):
+    """look through snapshot / conversion wrappers of an iterable: list(x), tuple(x), set(x), frozenset(x), sorted(x),
+    iter(x), reversed(x) - the elements are those of x"""
+    while tm[0] == "call" and tm[1][0] == "ext" and tm[1][1] in ("list", "tuple", "set", "frozenset", "sorted", "iter", "reversed") \
+            and len(tm[2]) == 1:
+        tm = tm[2][0]
+    return tm
